@@ -59,9 +59,9 @@ func (fc *FakeChain) ResetRequests() {
 	fc.mu.Unlock()
 }
 
-// URL is the path the server listens on: pegnetd's default --server flag is
-// "http://localhost:8088/v2" and the factom client POSTs to exactly the
-// configured URL, so pass srv.URL+"/v2" (ServerURL) to NewNode.
+// ServerURL is the app.Server value for NewNode: the factom client POSTs to
+// exactly the configured URL (pegnetd's default is "http://localhost:8088/v2"),
+// and the fake server listens on /v2.
 func ServerURL(srv *httptest.Server) string { return srv.URL + "/v2" }
 
 // Serve starts the fake factomd. JSON-RPC 2.0 over HTTP POST on /v2.
